@@ -38,6 +38,7 @@ TRUSTED = [
 ASSUMPTIONS = [
     "inputs are well-formed schemas: objects keyed by their own name, names distinct (what AddObject / the ordered map guarantee, C19)",
     "`file generated for a package` = its path mentions the package name; aggregate files that mention no package are not compared when a package is added",
+    "a composable plugin package composed into dash.Panel by a compose veneer is related to dash (dash's API reference lists the plugin's builder among the builders of Panel): files of dash are not compared when such a plugin is added or dropped",
 ]
 
 PRE = ("From Cog Require Import Model.PipelineCheck.\nImport ListNotations.\nLocal Open Scope string_scope.\n")
@@ -100,6 +101,20 @@ def with_extra_package(spec, rng):
                                  {"name": "Leaf", "def": pipegen.gen_struct(rng, [], 2)}]})
     s["inputs"][-1]["defs"][0]["def"]["fields"].append({"name": "leaf", "type": {"t": "ref", "to": "Leaf"}, "required": False})
     return s
+
+
+def without_last_package(spec):
+    """the inverse of adding an unreferenced input: drop the last input when no other input shares its
+    package and it is not the source of a compose veneer; returns (spec, dropped package) or None"""
+    inputs = spec["inputs"]
+    if len(inputs) < 3:
+        return None
+    last = inputs[-1]
+    if last["pkg"] == "dash" or sum(1 for x in inputs if x["pkg"] == last["pkg"]) != 1:
+        return None
+    s = copy.deepcopy(spec)
+    s["inputs"].pop()
+    return s, last["pkg"]
 
 
 def with_same_package(spec, rng, mode):
@@ -215,6 +230,9 @@ def run(ctx, verdict, replay=None, model_ok=True):
         for _ in range(3 if thorough else 2):
             variants.append((bi, "input-permutation", None, permuted_inputs(spec, rng)))
         variants.append((bi, "extra-package", None, with_extra_package(spec, rng)))
+        dropped = without_last_package(spec)
+        if dropped:
+            variants.append((bi, "drop-package", dropped[1], dropped[0]))
         for mode in ("disjoint", "equal", "conflict", "conflict-first", "conflict-last"):
             variants.append((bi, "same-package-" + mode, None, with_same_package(spec, rng, mode)))
     cfgs = []
@@ -286,6 +304,20 @@ def run(ctx, verdict, replay=None, model_ok=True):
                      if any(mentions(p, q) for q in pkgs) and not mentions(p, "zeta") and V["files"].get(p) != h]
             if diffs:
                 fail(rel, lang_of(diffs[0]), i, {"differing": sorted(diffs)[:10]})
+        elif rel == "drop-package":
+            # base = variant + one more input whose package nothing references
+            if V["status"] != "Ok":
+                fail("extra-package", "status", i, {"dropped": det, "status": V["status"], "err": V.get("err_text")})
+                continue
+            pkgs = [x["pkg"] for x in spec["inputs"]]
+            # a plugin composed into dash.Panel yields a builder FOR dash.Panel: dash's API reference lists
+            # it ("builders of this object") - dash is related to the plugin, not independent of it
+            composed = any(x["pkg"] == det and x.get("metadata") for x in bases[bi][1]["inputs"])
+            diffs = [p for p, h in V["files"].items()
+                     if any(mentions(p, q) for q in pkgs) and not mentions(p, det) and B["files"].get(p) != h
+                     and not (composed and mentions(p, "dash"))]
+            if diffs:
+                fail("extra-package", lang_of(diffs[0]), i, {"added_package": det, "differing": sorted(diffs)[:10]})
         elif rel.startswith("same-package-"):
             want = "Err" if "conflict" in rel else "Ok"
             if V["status"] != want:
